@@ -175,6 +175,14 @@ def _recursion(chk, ctx, pr) -> None:
         bnd = ctx.m.bind(T.norm(fors[0].iter), 'rank_order[lo:hi]')
         if bnd:
             ok = any(isinstance(n, ast.If) and T.cond(n.test) == T.cmp('Gt', ('name', bnd['lo']), ('name', bnd['hi'])) for n in ast.walk(ip))
+    if ok:
+        hi = bnd['hi']
+        loopv = fors[0].target.id if isinstance(fors[0].target, ast.Name) else None
+        ys = [n for n in ast.walk(fors[0]) if isinstance(n, ast.YieldFrom)]
+        ok = len(ys) == 1 and isinstance(ys[0].value, ast.Call) and ys[0].value.args and isinstance(ys[0].value.args[0], ast.JoinedStr)
+        if ok:
+            vals = [T.norm(v.value) for v in ys[0].value.args[0].values if isinstance(v, ast.FormattedValue)]
+            ok = len(vals) == 3 and vals[0] == T.spec(f'rank_order[{hi}]') and vals[1] == ('name', loopv)
     chk.ob('C18.recursion', 'analysis.__parse_range.iterate_plus:kicker_range', ok, pr.loc,
            'XY+ keeps the higher rank and lets the lower one range from itself up to just below the higher one')
     ii = next(n for n in pr.node.body if isinstance(n, ast.FunctionDef) and n.name == 'iterate_interval')
